@@ -150,12 +150,46 @@ def verdict(world, sut, op, ri, n1, step):
         return
     m = sut.models[ri]
     meta = sut.meta[ri]
-    if m is None or meta['kind'] not in ('msg', 'seg'):
+    if meta['kind'] not in ('msg', 'seg') or meta.get('profile'):
+        return
+    errors = n1[1]
+    # unknown elements (no name) that are still attached somewhere below this root
+    root_el = sut.roots[ri]
+    live_unknown = []
+    for u in getattr(sut, 'unknown', []):
+        node = u
+        attached = True
+        while node is not root_el:
+            p_ = node.parent
+            if p_ is None or not any(c is node for c in p_.children.list):
+                attached = False          # (a removed element keeps a stale parent pointer)
+                break
+            node = p_
+        if attached:
+            live_unknown.append(u)
+    if live_unknown:
+        world.probe('c04_unknown_element_present')
+        u = live_unknown[0]
+        seg = u.parent
+        # the validator does not descend into a child it has already reported as not allowed: the
+        # unknown element must be named only when its segment is itself in its place
+        in_place = seg is root_el
+        if not in_place and meta['kind'] == 'msg' and seg.parent is root_el:
+            from models import tables as T
+            ref = T.messages(meta['version']).get(meta['name'])
+            in_place = ref is not None and any(c[0] == seg.name and c[3] == 'SEG' for c in (ref[1] or ()))
+        if n1[0]:
+            world.violate('C04.verdict', 'is_valid is True although an unknown (unnamed) element is present',
+                          'under %r' % (seg,), step)
+        elif in_place and not any(('Unknown element' in e_ or 'None' in e_) for e_ in errors):
+            world.violate('C04.verdict', 'an unknown (unnamed) element is not reported by validate()',
+                          'under %r; errors=%r' % (seg, errors[:5]), step)
+        return
+    if m is None:
         return
     defects = VM.predict(m, meta['version'])
     if defects is None:
         return
-    errors = n1[1]
     world.probe('c04_verdict_checked')
     for d in defects:
         if not VM.named(d, errors):
